@@ -999,13 +999,13 @@ def advK (cfg : Cfg) (t : TCfg) (buf : Bytes) (o : R × Except Res Unit) : R × 
 
 theorem nextFrameBuf_ncaf (cfg : Cfg) (t : TCfg) (r : R) (buf : Bytes) (hrem : r.remaining ≠ 0) (hcaf : r.sub.caf = false) :
     nextFrameBuf cfg t r buf = frameInto cfg t r buf := by
-  unfold nextFrameBuf
-  rw [if_neg hrem, hcaf]
-  simp only [Bool.false_eq_true, if_false]
+  exact nextFrameBuf_inside cfg t r buf hrem hcaf
 
-theorem nextFrameBuf_caf (cfg : Cfg) (t : TCfg) (r : R) (buf : Bytes) (hrem : r.remaining ≠ 0) (hcaf : r.sub.caf = true) :
+theorem nextFrameBuf_caf (cfg : Cfg) (t : TCfg) (r : R) (buf : Bytes) (hcur : r.sub.cur = none) (hrem : r.remaining ≠ 0)
+    (hcaf : r.sub.caf = true) :
     nextFrameBuf cfg t r buf = advK cfg t buf (readUntilImageData cfg t r) := by
-  unfold nextFrameBuf advK
+  rw [nextFrameBuf_none cfg t r buf hcur]
+  unfold nextFrameBuf0 advK
   rw [if_neg hrem, hcaf]
   simp only [if_true]
   cases readUntilImageData cfg t r with
@@ -1025,26 +1025,27 @@ theorem nextFrameBuf_resumable (cfg : Cfg) (hI : cfg.InflateOk) {t : TCfg} (ht :
       (nextFrameBuf cfg t (growTo E v') bufE).2 = (nextFrameBuf cfg t (growTo A v') buf).2 ∧
       ∃ n, BehindN cfg n (nextFrameBuf cfg t (growTo E v') bufE).1 (nextFrameBuf cfg t (growTo A v') buf).1 := by
   have hl0 : LagLe cfg A.visible v' 0 A (growTo A v') := LagLe.of_sim rfl hv (Sim.refl _)
-  by_cases hrem : A.remaining = 0
-  · unfold nextFrameBuf at h
-    rw [if_pos hrem] at h
+  rcases inside_cases A with hin | ⟨hcur, hrem⟩ | ⟨hcur, hrem, hcaf⟩
+  · have hing : Inside (growTo A v') := hin
+    rw [nextFrameBuf_of_inside cfg t A buf hin] at h
+    rw [nextFrameBuf_of_inside cfg t (growTo A v') buf hing] at hy ⊢
+    obtain ⟨c1, c2, c3, c4, c5, c6, c7, m', c8'⟩ := frameInto_retry cfg hI ht hl0 hInv buf E bufE w h hy
+    have c8 := c8'.behind
+    have hremE : (growTo E v').remaining ≠ 0 := by
+      have := (c1.live c2).1
+      show E.remaining ≠ 0
+      omega
+    rw [nextFrameBuf_ncaf cfg t (growTo E v') bufE hremE c2]
+    exact ⟨c1, c3, c5, SameHeader.of_eq hInv c4, c6, c7, c8⟩
+  · rw [nextFrameBuf_polled cfg t A buf hcur hrem] at h
     simp only [Prod.mk.injEq, Res.err.injEq, reduceCtorEq, false_and, and_false] at h
   · have hremg : (growTo A v').remaining ≠ 0 := hrem
-    cases hcaf : A.sub.caf with
-    | false =>
-      rw [nextFrameBuf_ncaf cfg t A buf hrem hcaf] at h
-      rw [nextFrameBuf_ncaf cfg t (growTo A v') buf hremg hcaf] at hy ⊢
-      obtain ⟨c1, c2, c3, c4, c5, c6, c7, m', c8'⟩ := frameInto_retry cfg hI ht hl0 hInv buf E bufE w h hy
-      have c8 := c8'.behind
-      have hremE : (growTo E v').remaining ≠ 0 := by
-        have := (c1.live c2).1
-        show E.remaining ≠ 0
-        omega
-      rw [nextFrameBuf_ncaf cfg t (growTo E v') bufE hremE c2]
-      exact ⟨c1, c3, c5, SameHeader.of_eq hInv c4, c6, c7, c8⟩
+    have hcurg : (growTo A v').sub.cur = none := hcur
+    cases hcaf' : A.sub.caf with
+    | false => rw [hcaf] at hcaf'; cases hcaf'
     | true =>
-      rw [nextFrameBuf_caf cfg t A buf hrem hcaf] at h
-      rw [nextFrameBuf_caf cfg t (growTo A v') buf hremg hcaf] at hy ⊢
+      rw [nextFrameBuf_caf cfg t A buf hcur hrem hcaf] at h
+      rw [nextFrameBuf_caf cfg t (growTo A v') buf hcurg hremg hcaf] at hy ⊢
       have hsp := advanceFrame_spec cfg A hInv hcaf hrem
       cases hadv : readUntilImageData cfg t A with
       | mk A1 res1 =>
@@ -1057,7 +1058,8 @@ theorem nextFrameBuf_resumable (cfg : Cfg) (hI : cfg.InflateOk) {t : TCfg} (ht :
           obtain ⟨hres, f1, f2, f3, f4, f5⟩ := readUntilImageData_resumable cfg hI A A1 w v' hInv hcaf hrem hv hadv
           have hremE : (growTo A1 v').remaining ≠ 0 := by show A1.remaining ≠ 0; rw [f2]; exact hrem
           have hcafE : (growTo A1 v').sub.caf = true := by show A1.sub.caf = true; rw [f1]; exact hcaf
-          rw [nextFrameBuf_caf cfg t (growTo A1 v') buf hremE hcafE]
+          have hcurE : (growTo A1 v').sub.cur = none := by show A1.sub.cur = none; rw [f1]; exact hcur
+          rw [nextFrameBuf_caf cfg t (growTo A1 v') buf hcurE hremE hcafE]
           refine ⟨hsp.2.1, f4, f5, SameHeader.of_step hInv f3, rfl, ?_⟩
           rcases hres with heq | ⟨ra, rb, e', h1, h2, h3, h4⟩
           · rw [heq]
@@ -1267,16 +1269,15 @@ theorem frameInto_eof_avail (cfg : Cfg) (t : TCfg) (r : R) (buf : Bytes) (E : R)
 
 theorem nextFrameBuf_eof_avail (cfg : Cfg) (t : TCfg) (r : R) (buf : Bytes) (E : R) (bufE : Bytes) (w : String)
     (h : nextFrameBuf cfg t r buf = (E, .err .eof w, bufE)) : avail E = [] := by
-  by_cases hrem : r.remaining = 0
-  · unfold nextFrameBuf at h
-    rw [if_pos hrem] at h
+  rcases inside_cases r with hin | ⟨hcur, hrem⟩ | ⟨hcur, hrem, hcaf⟩
+  · rw [nextFrameBuf_of_inside cfg t r buf hin] at h
+    exact frameInto_eof_avail cfg t r buf E bufE w h
+  · rw [nextFrameBuf_polled cfg t r buf hcur hrem] at h
     simp only [Prod.mk.injEq, Res.err.injEq, reduceCtorEq, false_and, and_false] at h
-  · cases hcaf : r.sub.caf with
-    | false =>
-      rw [nextFrameBuf_ncaf cfg t r buf hrem hcaf] at h
-      exact frameInto_eof_avail cfg t r buf E bufE w h
+  · cases hcaf' : r.sub.caf with
+    | false => rw [hcaf] at hcaf'; cases hcaf'
     | true =>
-      rw [nextFrameBuf_caf cfg t r buf hrem hcaf] at h
+      rw [nextFrameBuf_caf cfg t r buf hcur hrem hcaf] at h
       generalize hadv : readUntilImageData cfg t r = o at h
       obtain ⟨r1, res⟩ := o
       cases res with
@@ -1521,12 +1522,13 @@ theorem readUntilImageData_pending (cfg : Cfg) (t : TCfg) (r : R) :
 
 theorem nextFrameBuf_pending (cfg : Cfg) (t : TCfg) (r : R) (buf : Bytes) :
     (nextFrameBuf cfg t r buf).1.pendingBuf = r.pendingBuf := by
-  by_cases hrem : r.remaining = 0
-  · unfold nextFrameBuf; rw [if_pos hrem]
-  · cases hcaf : r.sub.caf with
-    | false => rw [nextFrameBuf_ncaf cfg t r buf hrem hcaf]; exact frameInto_pending cfg t r buf
+  rcases inside_cases r with hin | ⟨hcur, hrem⟩ | ⟨hcur, hrem, hcaf⟩
+  · rw [nextFrameBuf_of_inside cfg t r buf hin]; exact frameInto_pending cfg t r buf
+  · rw [nextFrameBuf_polled cfg t r buf hcur hrem]
+  · cases hcaf' : r.sub.caf with
+    | false => rw [hcaf] at hcaf'; cases hcaf'
     | true =>
-      rw [nextFrameBuf_caf cfg t r buf hrem hcaf]
+      rw [nextFrameBuf_caf cfg t r buf hcur hrem hcaf]
       have h := readUntilImageData_pending cfg t r
       generalize readUntilImageData cfg t r = o at h
       obtain ⟨r1, res⟩ := o
@@ -1569,12 +1571,13 @@ theorem frameInto_res (cfg : Cfg) {t : TCfg} (ht : t.Ok) (r : R) (buf : Bytes) (
 theorem nextFrameBuf_res (cfg : Cfg) {t : TCfg} (ht : t.Ok) (r : R) (buf : Bytes) (hI : Inv t r) :
     (nextFrameBuf cfg t r buf).2.1.isErr = true ∨
       ∃ oi b, (nextFrameBuf cfg t r buf).2.1 = .frame oi b ∧ (nextFrameBuf cfg t r buf).1.sub.caf = true := by
-  by_cases hrem : r.remaining = 0
-  · unfold nextFrameBuf; rw [if_pos hrem]; exact Or.inl rfl
-  · cases hcaf : r.sub.caf with
-    | false => rw [nextFrameBuf_ncaf cfg t r buf hrem hcaf]; exact frameInto_res cfg ht r buf hI
+  rcases inside_cases r with hin | ⟨hcur, hrem⟩ | ⟨hcur, hrem, hcaf⟩
+  · rw [nextFrameBuf_of_inside cfg t r buf hin]; exact frameInto_res cfg ht r buf hI
+  · rw [nextFrameBuf_polled cfg t r buf hcur hrem]; exact Or.inl rfl
+  · cases hcaf' : r.sub.caf with
+    | false => rw [hcaf] at hcaf'; cases hcaf'
     | true =>
-      rw [nextFrameBuf_caf cfg t r buf hrem hcaf]
+      rw [nextFrameBuf_caf cfg t r buf hcur hrem hcaf]
       have hsp := advanceFrame_spec cfg r hI hcaf hrem
       generalize readUntilImageData cfg t r = o at hsp
       obtain ⟨r1, res⟩ := o
